@@ -518,7 +518,8 @@ def svh_cases(draw, tier):
         ns = draw(st.lists(st.integers(0, n - 1), min_size=size, max_size=size, unique=True))
         add(ns, draw(st.sampled_from([1, 1, 1, 2, 2, 3, 5, 8, 13, 20, 30]
                                      if not planted else [1, 1, 2, 3])))
-    mp = big and draw(st.integers(0, 59)) == 0
+    # a handful per shard (Hypothesis over-samples the ends of an integer range, not its middle)
+    mp = big and draw(st.integers(0, 399)) == 200
     return {"kind": U["kind"], "labels": labels, "weighted": weighted, "edges": edges,
             "max_order": draw(st.sampled_from([2, 3, 3, 4, 4, 5, 6])), "mp": mp,
             "planted": planted}
